@@ -1590,6 +1590,8 @@ def r_cache(m, rep, R):
                 rep.check(okw, R, w, 'cache:%s:wrapper' % kind,
                           '%s lambda forwards (%s callback, its own ids%s) to the shared lookup %s' % (kind, kind, '' if kind == 'binary' else ', UINT_MAX', core_name),
                           '%s lambda forwards %s to %s' % (kind, [show(a) for a in args], core_name))
+                if len(cpr) != 3:
+                    raise AnalysisError('%s:%s the shared rule lookup %s takes %d parameters (callback and the two ids expected): not recognised' % (H, core_fn.line, core_name, len(cpr)))
                 bind = {'cb': cpr[0], 'x': cpr[1], 'y': cpr[2]}
             elif r[0] == 'call' and isinstance(r[1], str) and r[1] in getattr(m.env, 'functions', {}):
                 # ... or around a helper function of the header that gets cache, scaffold, callback and ids as arguments
